@@ -140,6 +140,7 @@ SCALE = {"quick": [("ladder24", 30_000_000), ("ladder48", 100_000_000), ("chain3
 
 
 def run_shard(ctx):
+    gg.ALLOW_ODD = True  # node names that are not Python identifiers are node names like any other
     mon_id.install(semantic=False)
     mon_graph.install()
     rng = ctx.rng
